@@ -148,6 +148,12 @@ def mutations(design, rng, limit_per_class):
                 e4 = copy.deepcopy(e)
                 e4[1]["zzextra"] = ["sig", "zzx1"]
                 add("extra-member", site, mutated(e4, extra_sigs=[["zzx1", 1]]), "extra-connection")
+                # an extra member NAMED like the joined path of a nested member (`tx_p` beside `tx.p`)
+                deep = [pth for pth, _ in leaves if len(pth) >= 2]
+                if deep and "_".join(deep[0]) not in e[1]:
+                    e7 = copy.deepcopy(e)
+                    e7[1]["_".join(deep[0])] = ["sig", "zzx1"]
+                    add("extra-member-joined-name", site, mutated(e7, extra_sigs=[["zzx1", 1]]), "extra-connection")
             if e[0] == "bun":
                 # a bundle instance of an incompatible type (one member one bit wider)
                 add("bundle-type-mismatch", site, mutated(["bun", "zzbw"]) if False else None)
@@ -357,6 +363,100 @@ def _expr(self, e):
 build.ModBuilder.expr = _expr
 
 
+def after_failed_parent(rec, label, design):
+    """History-dependent faults: a valid design's sub-modules also sit under ANOTHER parent whose elaboration fails very late (an
+    instance array with an unconnected port is only found by the post-flattening connection check).  Afterwards the designer adds a
+    fault to a sub-module (or something that needs the early passes: an instance array).  Whatever is then exported for that
+    sub-module must not be ill-formed: the addition is refused, or elaboration raises, or the package equals a fresh build's."""
+    import hdl21 as h
+
+    subs = [m["name"] for m in design["modules"] if m["name"] != design["top"]]
+    if not subs:
+        return
+    for fault in ("width", "missing-port", "array", "foreign-signal", "reconnect-width", "disconnect", "reconnect-after-success", "disconnect-after-success"):
+        try:
+            built = build.build(copy.deepcopy(design))
+        except Exception:
+            return
+        rec.count("history.after-failed-parent")
+        case = {"kind": "after-failed-parent", "base": label, "fault": fault, "design": design}
+        rec.case(key=jhash([label, "after-failed-parent", fault]), nontrivial=True, sample=None)
+        bad = h.Module(name=f"LateBad_{next(build._counter)}")
+        for k, n in enumerate(subs):
+            sp, bp = refsem.iface(design, ["mod", n])
+            bad.add(h.Instance(of=built.modules[n])(**{p: h.NoConn() for p in list(sp) + list(bp)}), name=f"u{k}")
+        bad.add(h.InstanceArray(build.leaf_call("E2", 990), 2)(y=h.NoConn()), name="arr")  # port `x` unconnected
+        sub = built.modules[subs[-1]]
+        if fault.endswith("-after-success"):
+            # no failure at all: the sub-module is elaborated successfully, and its connections are edited afterwards
+            try:
+                h.elaborate(sub)
+            except Exception:
+                continue
+        else:
+            try:
+                h.elaborate(bad)
+                rec.count("history.late-parent-did-not-fail")
+                continue
+            except Exception:
+                pass
+        leaf = build.leaf_call("E2", 991)
+        other = h.Module(name="OtherOwner")
+        try:
+            if fault == "width":
+                w3 = sub.add(h.Signal(width=3), name="zz_w3")
+                y1 = sub.add(h.Signal(), name="zz_y1")
+                sub.add(h.Instance(of=leaf)(x=w3, y=y1), name="zz_bad")  # x is 2 wide
+            elif fault == "missing-port":
+                y1 = sub.add(h.Signal(), name="zz_y1")
+                sub.add(h.Instance(of=leaf)(y=y1), name="zz_bad")
+            elif fault == "array":
+                x2 = sub.add(h.Signal(width=2), name="zz_x2")
+                y1 = sub.add(h.Signal(), name="zz_y1")
+                sub.add(h.InstanceArray(leaf, 2)(x=x2, y=y1), name="zz_arr")
+            elif fault == "foreign-signal":
+                fs = other.add(h.Signal(width=2), name="fs")
+                y1 = sub.add(h.Signal(), name="zz_y1")
+                sub.add(h.Instance(of=leaf)(x=fs, y=y1), name="zz_bad")
+            else:
+                # edit a connection of an existing instance: to a signal of another width (a fresh, foreign one will do: it is both
+                # wider and not the module's), or remove it
+                insts = [i for i in sub.instances.values() if i.conns]
+                if not insts:
+                    continue
+                inst = insts[0]
+                port = next(iter(inst.conns))
+                if fault.startswith("reconnect"):
+                    w = getattr(inst.conns[port], "width", 1) or 1
+                    inst.connect(port, other.add(h.Signal(width=w + 1), name="fw"))
+                else:
+                    inst.disconnect(port)
+        except Exception:
+            rec.count("history.addition-refused")
+            continue
+        for call in ("elaborate", "to_proto"):
+            try:
+                if call == "elaborate":
+                    h.elaborate(sub)
+                    ret = None
+                else:
+                    ret = h.to_proto(sub)
+            except Exception:
+                rec.count("calls.raised")
+                continue
+            rec.count("calls.returned")
+            if fault == "array":
+                names = [i.name for i in ret.modules[-1].instances] if ret is not None else None
+                if ret is None or any(n.startswith("zz_arr") for n in names):
+                    continue  # a valid addition, elaborated properly
+                what = f"the added instance array is missing from the exported package ({names})"
+            else:
+                what = "returned instead of raising"
+            rec.violation(f"illformed-accepted:after-failed-parent:{fault}:{call}",
+                          f"[{label}] after another parent's elaboration failed late, a {fault} fault added to sub-module {subs[-1]}: {call} {what}",
+                          case=case, fault=fault, calls=call)
+
+
 def run(ctx, rec):
     rng = ctx.rng("c02")
     bases = [(l, d) for l, d in spec.structural_designs()]
@@ -366,6 +466,9 @@ def run(ctx, rec):
         bases.append((f"random #{k}", spec.random_design(rng, max_modules=3)))
     if ctx.nshards > 1:
         bases = bases[ctx.shard:: ctx.nshards]
+    for k, (label, base) in enumerate(bases):
+        if k % 4 == 0:
+            after_failed_parent(rec, label, base)
     for label, base in bases:
         for cls, site, d, expect in mutations(base, rng, 2 if ctx.quick else 4):
             confirmed = True
@@ -389,6 +492,9 @@ def shards(ctx):
 
 
 def replay(ctx, rec, case):
+    if case.get("kind") == "after-failed-parent":
+        after_failed_parent(rec, case["base"], case["design"])
+        return
     rec.case(key=jhash(case["design"]), nontrivial=True, sample={"fault": case["fault"], "site": case["site"]})
     rec.count("mutants.confirmed")
     call_all(rec, case["fault"], case["site"], case["design"], case)
